@@ -24,6 +24,11 @@ fn ev(k: &str, id: i64, p: i64, f: i64, tok: usize) -> AEvent {
 /// A canonical history in which every character is present in every frame, with its (trivial)
 /// final parser state: `nframes` frames, `nitems` items per frame.
 pub fn simple_beh(reg: &str, occ: &[&str], nframes: usize, nitems: usize) -> Beh {
+	simple_beh_gecko(reg, occ, nframes, nitems, 0)
+}
+
+/// As `simple_beh`, preceded by `ngecko` message-splitter blocks carrying Gecko codes (regime C only).
+pub fn simple_beh_gecko(reg: &str, occ: &[&str], nframes: usize, nitems: usize, ngecko: usize) -> Beh {
 	let v22 = reg != "A";
 	let v30 = reg == "C";
 	let mut chars: Vec<(u8, u8)> = vec![];
@@ -52,6 +57,22 @@ pub fn simple_beh(reg: &str, occ: &[&str], nframes: usize, nitems: usize) -> Beh
 	};
 	let mut steps = vec![];
 	let mut closed = 0usize;
+	for j in 0..ngecko {
+		let last = j + 1 == ngecko;
+		hist.push(AEvent {
+			k: "split".into(),
+			id: 0,
+			p: 61,
+			f: last as i64,
+			x: if last { 100 } else { 512 },
+			tok: hist.len() + 1,
+		});
+		fin.gecko.push(hist.len());
+		steps.push([0, 0]);
+	}
+	if ngecko > 0 {
+		fin.gactual = (512 * (ngecko - 1) + 100) as u32;
+	}
 	for i in 0..nframes {
 		let id = -123 + i as i64;
 		fin.ids.push(id as i32);
@@ -102,6 +123,10 @@ pub fn simple_beh(reg: &str, occ: &[&str], nframes: usize, nitems: usize) -> Beh
 	if v30 {
 		table.push("item".into());
 		table.push("fe".into());
+	}
+	if ngecko > 0 {
+		table.push("gecko".into());
+		table.push("split".into());
 	}
 	Beh {
 		reg: reg.into(),
